@@ -577,3 +577,82 @@ def rule_clamp(ctx):
                                 '(in the documented domain) makes %s() panic' % (name, b.name))
     r.check_floor()
     return r
+
+
+# ---------------------------------------------------------------------------------- SIBLING-SPLICE (C01, C05, C07)
+
+def _norm(e, adt_repl, depth=0):
+    """normalised skeleton of a position expression: leaves are CUR (the loop-carried cursor), LEN, ZERO, F:<replacement field>"""
+    if depth > 40:
+        return ('?',)
+    k = e[0]
+    if k == 'const':
+        return ('ZERO',) if e[1] == 0 else ('K', e[1])
+    if k in ('cast', 'ref', 'deref', 'upvar'):
+        return _norm(e[1], adt_repl, depth + 1)
+    if k == 'cycle':
+        return ('CUR',)
+    if k == 'phi':
+        alts = sorted({_norm(a, adt_repl, depth + 1) for a in e[1]} - {('ZERO',), ('CUR',)})
+        if not alts:
+            return ('CUR',)
+        return alts[0] if len(alts) == 1 else ('PHI',) + tuple(alts)
+    if k == 'field':
+        if e[3] == adt_repl:
+            return ('F', e[2])
+        return _norm(e[1], adt_repl, depth + 1)
+    if k == 'call':
+        n = e[1].rsplit('::', 1)[-1]
+        if n == 'len':
+            return ('LEN',)
+        if n in ('min', 'max'):
+            return (n,) + tuple(sorted(_norm(a, adt_repl, depth + 1) for a in e[2]))
+        if n == 'clamp' and len(e[2]) == 3:
+            return ('min', *sorted([('max', *sorted([_norm(e[2][0], adt_repl, depth + 1), _norm(e[2][1], adt_repl, depth + 1)])),
+                                   _norm(e[2][2], adt_repl, depth + 1)]))
+        if n in ('into', 'from', 'clone', 'try_into', 'unwrap'):
+            return _norm(e[2][0], adt_repl, depth + 1)
+        return ('call', n)
+    if k == 'bin':
+        return ('bin', e[1], _norm(e[2], adt_repl, depth + 1), _norm(e[3], adt_repl, depth + 1))
+    return (k,)
+
+
+def rule_sibling_splice(ctx):
+    f = ctx.facts()
+    r = RuleResult('SIBLING-SPLICE', 'the two splice implementations of ReplaceSource — source() over a string and rope() over a rope — slice the '
+                                     'inner text with the same position skeleton (cursor := min(max(cursor, end), len); copy up to min(start, len)), '
+                                     'modulo min/max commutativity and clamp(): if they differ, rope() does not render to source()')
+    r.floor = 2
+    A = anchors.replace_source(f)
+    tr = anchors.trait_path(f, 'Source')
+    sk = {}
+    for name in ('source', 'rope'):
+        bs = [b for b in f.body_list if b.promoted is None and b.d['kind'] != 'Closure' and b.d.get('impl_adt') == A['adt']
+              and b.d.get('impl_trait') == tr and b.name == name]
+        if len(bs) != 1:
+            raise anchors.AnchorMissing('ReplaceSource::%s' % name)
+        b = bs[0]
+        bounds = set()
+        for pt, t in b.calls():
+            c = t.get('callee')
+            if not c or len(t['args']) < 2 or 'Range' not in t['arg_tys'][1]:
+                continue
+            if c['name'] not in ('index', 'byte_slice', 'get_byte_slice', 'get', 'byte_slice_unchecked'):
+                continue
+            for y in walk(b.expr_of_operand(t['args'][1])):
+                if y[0] == 'agg' and y[2] and 'ops::Range' in y[2]:
+                    for nm, e in zip(y[4], y[5]):
+                        bounds.add((nm, _norm(e, A['replacement_adt'])))
+                    break
+        sk[name] = (b, bounds)
+        r.site('%s: slice-bound skeletons %s' % (b.path, sorted(bounds)), b.span(), 'ok')
+    (bs_, s1), (br_, s2) = sk['source'], sk['rope']
+    if s1 != s2:
+        only1, only2 = sorted(s1 - s2), sorted(s2 - s1)
+        r.sites[-1]['verdict'] = 'violation'
+        r.violation('skeleton', br_.span(), br_.path,
+                    'source() and rope() slice the inner text with different position skeletons (source only: %s; rope only: %s): for '
+                    'nested / overlapping replacements the rope no longer renders to source()' % (only1, only2))
+    r.check_floor()
+    return r
